@@ -1,13 +1,34 @@
 #!/usr/bin/env python3
-# usage: mkmutant.py <name> <file> <old> <new>   -> writes /verif/mutants/<name>.diff (the repo is left unchanged)
-import sys, subprocess
-name, path, old, new = sys.argv[1:5]
-p = '/repo/' + path
-s = open(p).read()
-assert s.count(old) == 1, "pattern count %d" % s.count(old)
-open(p, 'w').write(s.replace(old, new))
-d = subprocess.run(['git', '-C', '/repo', 'diff'], capture_output=True, text=True).stdout
-subprocess.run(['git', '-C', '/repo', 'checkout', '--', '.'])
-open('/verif/mutants/%s.diff' % name, 'w').write(d)
-b = subprocess.run('cd /repo && git apply %s && GOFLAGS=-mod=mod GOPROXY=off go build ./... ; rc=$?; git checkout -- . ; exit $rc' % ('/verif/mutants/%s.diff' % name), shell=True)
-print(name, 'builds' if b.returncode == 0 else 'DOES NOT BUILD')
+# usage: mkmutant.py <name> <file> <old> <new> [<file> <old> <new> ...]  -> writes /verif/mutants/<name>.diff
+# Works in a scratch worktree (/var/tmp/mutwt) of /repo's HEAD; /repo itself is never modified.
+import sys, subprocess, os
+WT = '/var/tmp/mutwt'
+env = dict(os.environ, GOFLAGS='-mod=mod', GOPROXY='off', GOSUMDB='off', GOTOOLCHAIN='local')
+def sh(*a, **k):
+    return subprocess.run(a, capture_output=True, text=True, **k)
+def worktree():
+    if not os.path.isdir(WT):
+        r = sh('git', '-C', '/repo', 'worktree', 'add', '--detach', WT, 'HEAD')
+        assert r.returncode == 0, r.stderr
+    head = sh('git', '-C', '/repo', 'rev-parse', 'HEAD').stdout.strip()
+    sh('git', '-C', WT, 'checkout', '-q', '--detach', head)
+    sh('git', '-C', WT, 'checkout', '--', '.')
+def make(name, edits):
+    worktree()
+    for path, old, new in edits:
+        p = os.path.join(WT, path)
+        s = open(p).read()
+        assert s.count(old) == 1, "%s: pattern count %d in %s" % (name, s.count(old), path)
+        open(p, 'w').write(s.replace(old, new))
+    d = sh('git', '-C', WT, 'diff').stdout
+    b = sh('go', 'build', './...', cwd=WT, env=env)
+    sh('git', '-C', WT, 'checkout', '--', '.')
+    if b.returncode != 0:
+        print(name, 'DOES NOT BUILD', b.stderr[:400])
+        return False
+    open('/verif/mutants/%s.diff' % name, 'w').write(d)
+    print(name, 'builds')
+    return True
+if __name__ == '__main__':
+    a = sys.argv[2:]
+    make(sys.argv[1], [tuple(a[i:i + 3]) for i in range(0, len(a), 3)])
